@@ -48,7 +48,9 @@ def generators():
     import gen_framing
     import gen_registry
     import gen_persist
-    gens = {'Framing': gen_framing.generate, 'Registry': gen_registry.generate, 'Persist': gen_persist.generate}
+    import gen_mro
+    gens = {'Framing': gen_framing.generate, 'Registry': gen_registry.generate, 'Persist': gen_persist.generate,
+            'MroScan': gen_mro.generate}
     try:
         import gen_units
         gens.update(gen_units.GENERATORS)
@@ -355,7 +357,7 @@ class Result:
         return code
 
 
-def prove(res, prop, units, proof_files, props_file=None):
+def prove(res, prop, units, proof_files, props_file=None, run_files=()):
     """Steps 1-3 of a check: regenerate, build, re-check Props/<prop>.v, audit.
     Returns True iff every obligation was discharged and the audit is clean."""
     props_file = props_file or f'theories/Props/{prop}.v'
@@ -372,7 +374,7 @@ def prove(res, prop, units, proof_files, props_file=None):
             for kind, nm in count_statements(rel):
                 res.obligations.append(f'{os.path.basename(rel)}:{nm}')
         vo = props_file[:-2] + '.vo'
-        ok, log = coq_make([vo])
+        ok, log = coq_make([vo] + [r[:-2] + '.vo' for r in run_files])
         if not ok:
             m = re.search(r'File "\./([^"]+)", line (\d+).*?\n(Error:.*?)(?:\n\n|\nmake)', log, re.S)
             what = f'{m.group(1)}:{m.group(2)}' if m else 'coq build'
@@ -398,6 +400,10 @@ def prove(res, prop, units, proof_files, props_file=None):
                 if n_print < len(thms):
                     res.tie('audit:assumptions', f'{len(thms)} theorems but {n_print} Print Assumptions')
                     ok_all = False
+        sys.path.insert(0, os.path.join(VERIF, 'tools'))
+        import pin
+        for m in pin.verify(prop):
+            res.tie('source-pin', m)
         bad = audit_sources()
         if bad:
             res.tie('audit:sources', '\n'.join(bad[:20]))
